@@ -48,7 +48,7 @@ def status_loop(side, ascending=True, both=None):
            "%s[2] == ((0 <= g_k && g_k < i) ? 1 : 0)" % GS,
            "!(0 <= g_k && g_k < i) || (%s[2] == GPV[%d][g_k] && %s[3] == 0.0)" % (GD, attr_idx, GD),
            "i == 0 || (%s[3] > %s && %s[4] >= %s[3] && g_seq >= %s[4])" % (GS, lseq, GS, GS, GS),
-           "g_seq >= %s" % lseq]
+           "g_seq >= %s && g_seq <= %d + i" % (lseq, 48 if side == "Upper" else 16)]
     return {"function": r"H::body_change%s_v\(this\)" % side, "loop": 0, "locals": ["i"], "invariants": inv,
             "assigns": ["i", "g_seq", "__CPROVER_object_whole(%s)" % GS, "__CPROVER_object_whole(%s)" % GD],
             "decreases": "%s - i" % n}
@@ -60,7 +60,7 @@ def range_loop():
         inv += ["%s[2] == ((i < g_k && g_k < g_nr) ? 1 : 0)" % GS,
                 "!(i < g_k && g_k < g_nr) || (%s[2] == GPV[%d][g_k] && %s[3] == 0.0)" % (GD, a, GD),
                 "i == g_nr - 1 || (%s[3] > %s && %s[4] >= %s[3] && g_seq >= %s[4])" % (GS, ls, GS, GS, GS),
-                "g_seq >= %s" % ls]
+                "g_seq >= %s && g_seq <= 16 + 2 * (g_nr - 1 - i)" % ls]
     return {"function": r"H::body_changeRange_v\(this\)", "loop": 0, "locals": ["i"], "invariants": inv,
             "assigns": ["i", "g_seq", "__CPROVER_object_whole(GS0)", "__CPROVER_object_whole(GD0)", "__CPROVER_object_whole(GS1)", "__CPROVER_object_whole(GD1)"],
             "decreases": "i + 1"}
@@ -97,7 +97,7 @@ RMUT = [mut("R2c4_rhs_scale_dropped_when_equal", "changeRange_i", r"changeRhs\(i
         mut("rhs_gets_lhs", "changeRange_i", "SPxLPBase<R>::changeRhs(i, newRhs, scale)", "SPxLPBase<R>::changeRhs(i, newLhs, scale)"),
         mut("status_old_swapped", "changeRange_i", "changeRhsStatus(i, this->rhs(i), oldRhs)", "changeRhsStatus(i, this->rhs(i), oldLhs)")]
 inst("changeRange_i", "changeRange(int i, const R& newLhs, const R& newRhs, bool scale)", "range_i", "h.changeRange(i, v1, v2, scale != 0)",
-     ["changeRange_i"], {"VALUE_DOMAIN": "(v1 == v2 || ABSD(v1 - v2) > g_eps)"}, RMUT)
+     ["changeRange_i"], {"VALUE_DOMAIN": "(v1 == v2 || g_eq_calls == 0 || g_eq_res == 0)"}, RMUT)
 inst("changeRange_i_exactrhs", "changeRange(int i, const R& newLhs, const R& newRhs, bool scale) [right-hand side handed over unchanged for ALL arguments]",
      "range_i", "h.changeRange(i, v1, v2, scale != 0)", ["changeRange_i"], {"VALUE_DOMAIN": "1"}, [], tier="thorough")
 inst("changeBounds_i", "changeBounds(int i, const R& newLower, const R& newUpper, bool scale) -> changeLower(i, ..), changeUpper(i, ..)", "bounds_i",
